@@ -433,7 +433,7 @@ func RunC09(c *Ctx) error {
 			continue
 		}
 		seenTree[h] = true
-		if c.Tier == "quick" && len(seenTree)%4 != 1 && !strings.HasPrefix(cs.gc.ID, "awk-") {
+		if c.Tier == "quick" && len(seenTree)%4 != 1 && !strings.HasPrefix(cs.gc.ID, "awk-") && len(cs.flags) > len(cs.gc.NeedFlags) {
 			continue // quick: every fourth distinct tree, and every hostile-spelling grammar
 		}
 		cjobs = append(cjobs, &cjob{cs: cs})
